@@ -65,6 +65,8 @@ fn main() {
         only,
         verbose: verbose_flag || only.is_some(),
         strict_appendix_b: args.contains_key("strict-appendix-b"),
+        avoid_known: args.contains_key("avoid-known"),
+        huge_initial_window: args.contains_key("huge-initial-window"),
     };
 
     let mut sum = Summary::default();
